@@ -135,6 +135,16 @@ CHECKS = {
              "calls; must-accept => not rejected; out-of-range type => negative, nothing leaked; the two documented-ambiguous zones accept either. Every "
              "distinct valid combination of the quick space (683) is then started with the real exec and its effective redirect per stream is confirmed "
              "with the C10 identity oracle."),
+    "C03": dict(
+        cat="model_checking", design="3/C03",
+        technique="exhaustive enumeration of argument vectors / environment lists / path forms over a fixed byte alphabet against the real library (emulated exec for the bulk, real exec for a subset and every path case; sanitizer build for the path-length cases)",
+        text="argv: every vector of 0..3 extra arguments over 13 one-byte strings {empty, a, space, tab, newline, double quote, quote, backslash, =, *, $, 0x80, 0xFF}, "
+             "every two-byte string as a single argument (also with the real exec), a 4 KiB and a 128 KiB argument; environment: every list of 0..2 "
+             "(thorough 0..3) extra entries over 8 shapes (empty value, empty name, no '=', duplicate key, UTF-8, spaces, quotes) x EXTEND/EMPTY x parent "
+             "environments {empty, 1, 40 entries, duplicate key}; program named absolutely / ./dir/prog / dir/prog / ../x/prog / by bare name through PATH "
+             "x working_directory {unset, relative, with spaces, absolute} x EXTEND/EMPTY; parent cwd lengths 100..20000 bytes around PATH_MAX under "
+             "ASan/UBSan. Oracle: the helper's argv/envp/getcwd byte for byte; the helper image really ran (resolved against the parent's cwd); beyond "
+             "PATH_MAX a negative result, no child, no sanitizer report. Outside the bound: strings longer than 2 bytes beyond the two long cases."),
 }
 
 NOT_YET = "check not built yet (work in progress; see DESIGN.md section 7 for the build order)"
